@@ -6,6 +6,8 @@ import Driver.Views
 import Driver.Connect
 import Driver.Params
 import Driver.Ops
+import Driver.Swc
+import Driver.CableDual
 open Driver
 
 def handle (line : String) : String :=
@@ -25,6 +27,8 @@ def handle (line : String) : String :=
   | "mt" :: rest => handleMT rest
   | "scat" :: rest => handleScat rest
   | "ops" :: rest => handleOps rest
+  | "cabledual" :: rest => handleCableDual rest
+  | "swc" :: rest => handleSwc rest
   | "ping" :: _ => "pong"
   | _ => "bad-op"
 
